@@ -86,7 +86,9 @@ def gen_history(seed, i, valid, tier):
            "dest_mtime": rng.choice([SENTINEL_MTIME, FUTURE_MTIME]),
            # settings are fixed per history; a grammar that does not compile under them counts as invalid
            "derives": rng.weighted([(None, 60), (["Debug", "Clone", "PartialEq", "Eq"], 20), ([], 20)]),
-           "ctx": "crate::Ctx" if rng.coin(150) else None}
+           "ctx": "crate::Ctx" if rng.coin(150) else None,
+           # the whole history inside one process (state kept by Compile between runs of a process), or a process per run
+           "one_process": rng.coin(250)}
     if mode == "file":
         slots = ["g0.ebnf"]
     else:
@@ -192,13 +194,50 @@ def settings_of(cfg):
     return a
 
 
+IGNORED_PRODUCTS = ("notes.rs", "grammar.rs", "UPPER.rs", "UPPER.RS")
+
+
+def load_snap(snapdir, label, i):
+    mt = open(os.path.join(snapdir, "%s.%d.mt" % (label, i))).read().strip()
+    if mt == "absent":
+        return None
+    if mt == "notfile":
+        return ("notfile", 0)
+    return (open(os.path.join(snapdir, "%s.%d.bin" % (label, i)), "rb").read(), int(mt))
+
+
 def execute_history(cfg, d, valid, scratch, stats=None):
-    """Runs the history in directory d. Returns list of violations: dicts with class, op index, detail."""
+    """Runs the history in directory d. Returns (violations, info).
+    Two executors: every run a fresh child (default), or the whole history inside ONE process (cfg["one_process"]):
+    file operations and Compile runs are then written into a script that `driver compile-script` executes, and the
+    same judge looks at the snapshots it took."""
     fmt = cfg["format"]
     settings = settings_of(cfg)
     prefixes = PREFIXES_FORMAT if fmt else PREFIXES
+    one_process = bool(cfg.get("one_process"))
+    script = []
     slots = [Slot(r) for r in cfg["slots"]]
     prefix = ""
+    dest_mtime = cfg.get("dest_mtime", SENTINEL_MTIME)
+
+    def fs_write(path, data, mtime=None):
+        if one_process:
+            script.append("W\t%s\t%s" % (path, data.hex()))
+            if mtime is not None:
+                script.append("UT\t%s\t%d" % (path, mtime))
+        else:
+            os.makedirs(os.path.dirname(path), exist_ok=True)
+            with open(path, "wb") as f:
+                f.write(data)
+            if mtime is not None:
+                os.utime(path, (mtime, mtime))
+
+    def fs_remove(path):
+        if one_process:
+            script.append("RM\t%s" % path)
+        else:
+            remove_any(path)
+
     os.makedirs(os.path.join(d, "outdir"), exist_ok=True)
     if cfg["mode"] == "dir":
         for sub in ("sub", "x", "y"):
@@ -210,17 +249,18 @@ def execute_history(cfg, d, valid, scratch, stats=None):
             f.write("not a grammar\n")
         with open(os.path.join(d, "src", "grammar.not_ebnf"), "w") as f:
             f.write("@export A = ;;;\n")
-    viol = []
-    runs_ok = 0
-    runs_err = 0
-    changed_since_ok = True
-    trace = []
+    events = []
+    nrun = 0
+    dests = [dest_of(cfg, d, s) for s in range(len(slots))]
+    ignored = [os.path.join(d, "src", x) for x in IGNORED_PRODUCTS] if cfg["mode"] == "dir" else []
     for opi, op in enumerate(cfg["ops"]):
         if op[0] == "edit":
             sl = slots[op[1]]
             p = os.path.join(d, sl.rel)
-            remove_any(p)
+            fs_remove(p)
             kind = op[2]
+            if one_process and kind == "eio":
+                kind = "utf8"  # injected I/O errors are per process; not used inside a one-process history
             sl.kind = kind
             if kind == "valid":
                 sl.text = valid[op[3] % len(valid)]
@@ -236,130 +276,187 @@ def execute_history(cfg, d, valid, scratch, stats=None):
             else:
                 sl.text = None
             if kind == "dangling":
-                os.symlink(os.path.join(d, "nowhere.ebnf"), p)
+                if one_process:
+                    script.append("LN\t%s\t%s" % (os.path.join(d, "nowhere.ebnf"), p))
+                else:
+                    os.symlink(os.path.join(d, "nowhere.ebnf"), p)
             elif kind == "is_dir":
-                os.makedirs(p)
+                if one_process:
+                    script.append("MKDIR\t%s" % p)
+                else:
+                    os.makedirs(p)
             elif kind != "removed":
-                with open(p, "wb") as f:
-                    f.write(sl.text)
                 mt = GRAMMAR_MTIMES.get(op[4] if len(op) > 4 else "now")
                 if mt == "dest":
-                    mt = cfg.get("dest_mtime", SENTINEL_MTIME)
-                if mt is not None:
-                    os.utime(p, (mt, mt))
-            changed_since_ok = True
-            trace.append("edit:%s%s" % (kind, "" if len(op) < 5 or op[4] == "now" else "@" + op[4]))
+                    mt = dest_mtime
+                fs_write(p, sl.text, mt)
+            events.append(("change", "edit:%s%s" % (kind, "" if len(op) < 5 or op[4] == "now" else "@" + op[4])))
         elif op[0] == "prefix":
             newp = prefixes[op[1] % len(prefixes)]
-            if newp != prefix:
-                changed_since_ok = True
+            events.append(("change" if newp != prefix else "nochange", "prefix"))
             prefix = newp
-            trace.append("prefix")
         elif op[0] == "delete":
-            dp = dest_of(cfg, d, op[1])
-            if os.path.isfile(dp):
+            dp = dests[op[1]]
+            existed = one_process or os.path.isfile(dp)
+            if one_process:
+                script.append("RM\t%s" % dp)
+            elif existed:
                 os.unlink(dp)
-                changed_since_ok = True
-            trace.append("delete")
+            events.append(("change" if existed else "nochange", "delete"))
         elif op[0] == "run":
-            in_scope = [s for s in range(len(slots)) if slots[s].kind != "absent" and not (cfg["mode"] == "dir" and slots[s].kind == "removed")]
-            before = {}
-            fresh = {}
-            for s in range(len(slots)):
-                dp = dest_of(cfg, d, s)
-                if os.path.isfile(dp):
-                    os.utime(dp, (cfg.get("dest_mtime", SENTINEL_MTIME), cfg.get("dest_mtime", SENTINEL_MTIME)))
-                before[s] = snapshot(dp)
-            expected = {}
-            rejected_by_settings = set()
-            for s in in_scope:
-                if slots[s].kind == "valid":
-                    expected[s] = scratch.get(slots[s].text, prefix, fmt, cfg["entropy"], settings)
-                    if expected[s] is None:
-                        if not settings:
-                            raise HarnessError("reference compile of a pool grammar failed")
-                        # e.g. @memoize with an empty derive set: invalid under this history's settings
-                        rejected_by_settings.add(s)
-                        continue
-                    fresh[s] = before[s] is not None and before[s][0] == expected[s]
-            failing = [s for s in in_scope if slots[s].kind != "valid" or s in rejected_by_settings]
-            if cfg["mode"] == "file":
-                if slots[0].kind == "absent":
-                    continue
-                argv = [sim_bin("driver"), "compile", "--file", os.path.join(d, slots[0].rel)]
-                if cfg["explicit_dest"]:
-                    argv += ["--dest", dest_of(cfg, d, 0)]
-            else:
-                argv = [sim_bin("driver"), "compile", "--dir", os.path.join(d, "src")]
-            argv += ["--prefix", prefix] + settings
-            if fmt:
-                argv.append("--format")
-            eio = [os.path.basename(slots[s].rel) for s in in_scope if slots[s].kind == "eio"]
-            faults = ";".join("open:%s:1:e5" % b for b in eio) or None
-            shim_log = os.path.join(d, "shim.log")
-            if os.path.exists(shim_log):
-                os.unlink(shim_log)
-            c = run_child(argv, d, base_env(), entropy=cfg["entropy"], faults=faults, shim_log=shim_log)
-            _, marker, rest = split_driver_output(c.out)
-            if stats is not None and eio:
-                stats["eio_fired"] += sum(1 for l in c.shim_log if "errno 5" in l)
-            after = {s: snapshot(dest_of(cfg, d, s)) for s in range(len(slots))}
-
-            def v(cls, s, detail):
-                viol.append({"class": cls, "op": opi, "slot": s, "detail": detail, "prefix": prefix,
-                             "changed_since_last_ok": changed_since_ok})
-
-            if cfg["mode"] == "dir":
-                for ign in ("notes.rs", "grammar.rs", "UPPER.rs", "UPPER.RS"):
-                    if os.path.exists(os.path.join(d, "src", ign)):
-                        v("ignored-file-compiled", None, "the directory walk produced %s from a file that is not *.ebnf" % ign)
-            if c.crashed() or marker not in ("Ok", "Err"):
-                v("crash", None, "Compile child %s: %s" % (c.status_word(), c.err[-300:].decode(errors="replace")))
-                trace.append("run:crash")
+            if cfg["mode"] == "file" and slots[0].kind == "absent":
                 continue
-            if marker == "Ok":
-                runs_ok += 1
-                trace.append("run:ok" + ("*" if changed_since_ok else ""))
-                if failing:
-                    v("failing-run-returned-ok", failing[0], "grammar state %s but Compile::run returned Ok" % ("rejected under the history's settings" if failing[0] in rejected_by_settings else slots[failing[0]].kind))
-                for s in in_scope:
-                    if slots[s].kind != "valid" or s in rejected_by_settings:
-                        continue
-                    a = after[s]
-                    if a is None or a[0] == "notfile":
-                        v("missing-after-ok", s, "run returned Ok but the destination does not exist")
-                        continue
-                    if a[0] != expected[s]:
-                        stale = before[s] is not None and a[0] == before[s][0]
-                        v("stale-after-ok" if stale else "wrong-after-ok", s,
-                          "run returned Ok but the destination differs from compile-from-scratch (%s)" % ("old file kept" if stale else "new content is wrong"))
-                        continue
-                    m = HEADER_RE.match(a[0])
-                    if not m or m.group(1).decode() != crc32_hex(slots[s].text):
-                        v("header-mismatch", s, "destination header does not carry the CRC-32 of the current grammar")
-                    elif not fmt:
-                        tail = a[0][m.end():]
-                        while tail.startswith(b"//"):  # further header comment lines
-                            tail = tail[tail.index(b"\n") + 1:] if b"\n" in tail else b""
-                        if not tail.startswith(b"\n" + prefix.encode() + b"\n"):
-                            v("header-mismatch", s, "destination does not continue with the prefix after the header")
-                    if fresh.get(s) and a[1] != before[s][1]:
-                        v("touched-when-fresh", s, "destination was already the compilation of the same grammar, prefix and library but was rewritten")
-                if not failing:
-                    changed_since_ok = False
+            rec = {"opi": opi, "label": "r%d" % nrun, "prefix": prefix,
+                   "kinds": [sl.kind for sl in slots], "texts": [sl.text for sl in slots]}
+            nrun += 1
+            if cfg["mode"] == "file":
+                args = ["--file", os.path.join(d, slots[0].rel)]
+                if cfg["explicit_dest"]:
+                    args += ["--dest", dests[0]]
             else:
-                runs_err += 1
-                trace.append("run:err")
-                if not failing:
-                    v("valid-run-failed", None, "all grammars valid and readable but Compile::run returned Err: %s" % rest[:200].decode(errors="replace"))
-                for s in failing:
-                    if after[s] != before[s]:
-                        v("failing-run-modified-destination", s, "run failed on this grammar (%s) but its destination changed" % ("rejected under the history's settings" if s in rejected_by_settings else slots[s].kind))
-                for s in in_scope:
-                    if slots[s].kind == "valid" and s not in rejected_by_settings and after[s] != before[s]:
-                        # directory mode stops at the first error in read_dir order: other grammars are unchanged or fresh
-                        if after[s] is None or after[s][0] != expected[s]:
-                            v("failing-run-corrupted-other-destination", s, "a valid grammar's destination is neither unchanged nor the fresh compilation")
+                args = ["--dir", os.path.join(d, "src")]
+            args += ["--prefix", prefix] + settings
+            if fmt:
+                args.append("--format")
+            if one_process:
+                for dp in dests:
+                    script.append("UT\t%s\t%d" % (dp, dest_mtime))
+                script.append("SNAP\t%s_pre\t%s" % (rec["label"], "\t".join(dests)))
+                script.append("RUN\t%s\t%s" % (rec["label"], "\t".join(a.replace("\n", "\\n") for a in args)))
+                script.append("SNAP\t%s_post\t%s" % (rec["label"], "\t".join(dests + ignored)))
+            else:
+                before = {}
+                for s, dp in enumerate(dests):
+                    if os.path.isfile(dp):
+                        os.utime(dp, (dest_mtime, dest_mtime))
+                    before[s] = snapshot(dp)
+                in_scope_now = [s for s in range(len(slots)) if slots[s].kind != "absent"]
+                eio = [os.path.basename(slots[s].rel) for s in in_scope_now if slots[s].kind == "eio"]
+                faults = ";".join("open:%s:1:e5" % b for b in eio) or None
+                shim_log = os.path.join(d, "shim.log")
+                if os.path.exists(shim_log):
+                    os.unlink(shim_log)
+                c = run_child([sim_bin("driver"), "compile"] + args, d, base_env(), entropy=cfg["entropy"], faults=faults, shim_log=shim_log)
+                _, marker, rest = split_driver_output(c.out)
+                if stats is not None and eio:
+                    stats["eio_fired"] += sum(1 for l in c.shim_log if "errno 5" in l)
+                rec.update({"before": before, "after": {s: snapshot(dp) for s, dp in enumerate(dests)},
+                            "marker": marker if not c.crashed() else "crash", "rest": rest,
+                            "crash_detail": "Compile child %s: %s" % (c.status_word(), c.err[-300:].decode(errors="replace")),
+                            "ignored_present": [os.path.basename(x) for x in ignored if os.path.exists(x)]})
+            events.append(("run", rec))
+    if one_process:
+        sp = os.path.join(d, "history.script")
+        with open(sp, "w") as f:
+            f.write("\n".join(script) + "\n")
+        snapdir = os.path.join(d, "snap")
+        c = run_child([sim_bin("driver"), "compile-script", sp, snapdir], d, base_env(), entropy=cfg["entropy"], timeout=120)
+        results = {}
+        for line in c.out.decode(errors="replace").splitlines():
+            f = line.split("\t")
+            if f[0] == "RESULT":
+                results[f[1]] = (f[2], (f[3] if len(f) > 3 else ""))
+        for kind, rec in events:
+            if kind != "run":
+                continue
+            lab = rec["label"]
+            if lab not in results or not os.path.exists(os.path.join(snapdir, "%s_post.0.mt" % lab)):
+                rec.update({"marker": "crash", "crash_detail": "one-process history died (%s) before this run finished: %s" % (c.status_word(), c.err[-300:].decode(errors="replace")),
+                            "before": {}, "after": {}, "rest": b"", "ignored_present": []})
+                continue
+            rec["marker"], rest = results[lab]
+            rec["rest"] = rest.encode()
+            rec["crash_detail"] = ""
+            rec["before"] = {s: load_snap(snapdir, lab + "_pre", s) for s in range(len(dests))}
+            rec["after"] = {s: load_snap(snapdir, lab + "_post", s) for s in range(len(dests))}
+            rec["ignored_present"] = [os.path.basename(x) for k, x in enumerate(ignored) if load_snap(snapdir, lab + "_post", len(dests) + k) is not None]
+
+    # ---------------------------------------------------------------- judge, run by run
+    viol = []
+    runs_ok = 0
+    runs_err = 0
+    changed_since_ok = True
+    trace = []
+    for kind, rec in events:
+        if kind in ("change", "nochange"):
+            if kind == "change":
+                changed_since_ok = True
+            trace.append(rec)
+            continue
+        kinds, texts, rprefix, before, after = rec["kinds"], rec["texts"], rec["prefix"], rec["before"], rec["after"]
+        in_scope = [s for s in range(len(kinds)) if kinds[s] != "absent" and not (cfg["mode"] == "dir" and kinds[s] == "removed")]
+
+        def v(cls, s, detail, rec=rec):
+            viol.append({"class": cls, "op": rec["opi"], "slot": s, "detail": detail, "prefix": rec["prefix"],
+                         "changed_since_last_ok": changed_since_ok})
+
+        for ign in rec["ignored_present"]:
+            v("ignored-file-compiled", None, "the directory walk produced %s from a file that is not *.ebnf" % ign)
+        if rec["marker"] not in ("Ok", "Err"):
+            v("crash", None, rec["crash_detail"])
+            trace.append("run:crash")
+            continue
+        expected = {}
+        fresh = {}
+        rejected_by_settings = set()
+        for s in in_scope:
+            if kinds[s] == "valid":
+                expected[s] = scratch.get(texts[s], rprefix, fmt, cfg["entropy"], settings)
+                if expected[s] is None:
+                    if not settings:
+                        raise HarnessError("reference compile of a pool grammar failed")
+                    # e.g. @memoize with an empty derive set: invalid under this history's settings
+                    rejected_by_settings.add(s)
+                    continue
+                fresh[s] = before.get(s) is not None and before[s][0] == expected[s]
+        failing = [s for s in in_scope if kinds[s] != "valid" or s in rejected_by_settings]
+
+        def why(s):
+            return "rejected under the history's settings" if s in rejected_by_settings else kinds[s]
+
+        if rec["marker"] == "Ok":
+            runs_ok += 1
+            trace.append("run:ok" + ("*" if changed_since_ok else ""))
+            if failing:
+                v("failing-run-returned-ok", failing[0], "grammar state %s but Compile::run returned Ok" % why(failing[0]))
+            for s in in_scope:
+                if kinds[s] != "valid" or s in rejected_by_settings:
+                    continue
+                a = after.get(s)
+                if a is None or a[0] == "notfile":
+                    v("missing-after-ok", s, "run returned Ok but the destination does not exist")
+                    continue
+                if a[0] != expected[s]:
+                    stale = before.get(s) is not None and a[0] == before[s][0]
+                    v("stale-after-ok" if stale else "wrong-after-ok", s,
+                      "run returned Ok but the destination differs from compile-from-scratch (%s)" % ("old file kept" if stale else "new content is wrong"))
+                    continue
+                m = HEADER_RE.match(a[0])
+                if not m or m.group(1).decode() != crc32_hex(texts[s]):
+                    v("header-mismatch", s, "destination header does not carry the CRC-32 of the current grammar")
+                elif not fmt:
+                    tail = a[0][m.end():]
+                    while tail.startswith(b"//"):  # further header comment lines
+                        tail = tail[tail.index(b"\n") + 1:] if b"\n" in tail else b""
+                    if not tail.startswith(b"\n" + rprefix.encode() + b"\n"):
+                        v("header-mismatch", s, "destination does not continue with the prefix after the header")
+                if fresh.get(s) and a[1] != before[s][1]:
+                    v("touched-when-fresh", s, "destination was already the compilation of the same grammar, prefix and library but was rewritten")
+            if not failing:
+                changed_since_ok = False
+        else:
+            runs_err += 1
+            trace.append("run:err")
+            if not failing:
+                v("valid-run-failed", None, "all grammars valid and readable but Compile::run returned Err: %s" % rec["rest"][:200].decode(errors="replace"))
+            for s in failing:
+                if after.get(s) != before.get(s):
+                    v("failing-run-modified-destination", s, "run failed on this grammar (%s) but its destination changed" % why(s))
+            for s in in_scope:
+                if kinds[s] == "valid" and s not in rejected_by_settings and after.get(s) != before.get(s):
+                    # directory mode stops at the first error in read_dir order: other grammars are unchanged or fresh
+                    if after.get(s) is None or after[s][0] != expected[s]:
+                        v("failing-run-corrupted-other-destination", s, "a valid grammar's destination is neither unchanged nor the fresh compilation")
     return viol, {"runs_ok": runs_ok, "runs_err": runs_err, "trace": trace}
 
 
@@ -413,9 +510,9 @@ def run(tier, seed, replay_path=None):
             for t in info["trace"]:
                 op_counts[t] = op_counts.get(t, 0) + 1
             if any(t == "run:ok*" for t in info["trace"][1:]) and info["runs_ok"] >= 1:
-                nontrivial.add((cfg["mode"], cfg["format"], cfg["explicit_dest"], tuple(info["trace"])))
+                nontrivial.add((cfg["mode"], cfg["format"], cfg["explicit_dest"], cfg.get("one_process", False), tuple(info["trace"])))
             if len(samples) < 3 and info["runs_ok"] >= 2 and info["runs_err"] >= 1:
-                samples.append({"history": cfg["id"], "mode": cfg["mode"], "format": cfg["format"], "explicit_destination": cfg["explicit_dest"],
+                samples.append({"history": cfg["id"], "mode": cfg["mode"], "format": cfg["format"], "explicit_destination": cfg["explicit_dest"], "one_process": cfg.get("one_process", False),
                                 "slots": cfg["slots"], "operations": info["trace"]})
             for v in viol:
                 classes[v["class"]] = classes.get(v["class"], 0) + 1
@@ -462,6 +559,7 @@ def run(tier, seed, replay_path=None):
             "compile_runs": total_runs,
             "reference_compiles": scratch.n,
             "histories_with_successful_run": with_ok,
+            "one_process_histories": sum(1 for cfg, _ in results if cfg.get("one_process")),
             "operation_counts": op_counts,
             "violation_classes_seen": classes,
             "faults_fired": {"EIO_on_grammar_open": stats["eio_fired"],
